@@ -36,6 +36,16 @@ func (f *field) AnalyzedTokenFrequencies() index.TokenFrequencies { return f.fre
 type synField struct {
 	name  string
 	pairs []model.SynPair
+	// noisy: the field also reports analysed tokens (legal for an index.Field;
+	// a synonym field's tokens never reach the inverted index)
+	noisy bool
+}
+
+func noise() index.TokenFrequencies {
+	tf := &index.TokenFreq{Term: []byte("zz-leaked-token")}
+	tf.SetFrequency(2)
+	tf.Locations = []*index.TokenLocation{{Start: 0, End: 3, Position: 1}, {Start: 4, End: 7, Position: 2}}
+	return index.TokenFrequencies{"zz-leaked-token": tf}
 }
 
 func (f *synField) Name() string                        { return f.name }
@@ -44,9 +54,17 @@ func (f *synField) ArrayPositions() []uint64            { return nil }
 func (f *synField) EncodedFieldType() byte              { return 0 }
 func (f *synField) Analyze()                            {}
 func (f *synField) Options() index.FieldIndexingOptions { return 0 }
-func (f *synField) AnalyzedLength() int                 { return 0 }
-func (f *synField) NumPlainTextBytes() uint64           { return 0 }
+func (f *synField) AnalyzedLength() int {
+	if f.noisy {
+		return 2
+	}
+	return 0
+}
+func (f *synField) NumPlainTextBytes() uint64 { return 0 }
 func (f *synField) AnalyzedTokenFrequencies() index.TokenFrequencies {
+	if f.noisy {
+		return noise()
+	}
 	return nil
 }
 func (f *synField) IterateSynonyms(visitor func(term string, synonyms []string)) {
@@ -63,6 +81,7 @@ type vecField struct {
 	dims   int
 	metric string
 	opt    string
+	noisy  bool // see synField.noisy
 }
 
 func (f *vecField) Name() string                        { return f.name }
@@ -71,9 +90,17 @@ func (f *vecField) ArrayPositions() []uint64            { return nil }
 func (f *vecField) EncodedFieldType() byte              { return 'v' }
 func (f *vecField) Analyze()                            {}
 func (f *vecField) Options() index.FieldIndexingOptions { return index.IndexField }
-func (f *vecField) AnalyzedLength() int                 { return 0 }
-func (f *vecField) NumPlainTextBytes() uint64           { return 0 }
+func (f *vecField) AnalyzedLength() int {
+	if f.noisy {
+		return 2
+	}
+	return 0
+}
+func (f *vecField) NumPlainTextBytes() uint64 { return 0 }
 func (f *vecField) AnalyzedTokenFrequencies() index.TokenFrequencies {
+	if f.noisy {
+		return noise()
+	}
 	return nil
 }
 func (f *vecField) Vector() []float32         { return f.vec }
@@ -194,11 +221,11 @@ func Docs(b *model.Batch) []index.Document {
 			sd.fields = append(sd.fields, mkField(&d.Fields[j]))
 		}
 		for _, sf := range d.Syn {
-			sd.fields = append(sd.fields, &synField{name: sf.Thes, pairs: sf.Pairs})
+			sd.fields = append(sd.fields, &synField{name: sf.Thes, pairs: sf.Pairs, noisy: (i+len(sf.Pairs))%3 == 0})
 		}
 		for _, vf := range d.Vecs {
 			sd.fields = append(sd.fields, &vecField{name: vf.Name, vec: append([]float32(nil), vf.Vec...),
-				dims: vf.Dims, metric: vf.Metric, opt: vf.Opt})
+				dims: vf.Dims, metric: vf.Metric, opt: vf.Opt, noisy: (i+len(vf.Vec))%3 == 0})
 		}
 		if d.IDLast {
 			sd.fields = append(sd.fields, idField(d.ID, d.IDDV))
